@@ -159,6 +159,13 @@ def c14_oracle(d):
         if c["op"] == "initialize":
             continue
         a, b = canon(c, r), canon(c, q)
+        if c["op"] in ("read", "readat", "write", "writeat", "writestring") and "n" in (r.get("ret") or {}):
+            # "the counts reported": whatever the outcome, a count is between 0 and the length asked for (io.Reader / io.Writer;
+            # bytes.Buffer.ReadFrom panics on a negative count, io.ReadAll slices out of range)
+            n = r["ret"]["n"]
+            want = c["n"] if c["op"] in ("read", "readat") else len(base64.b64decode(c.get("data", ""))) if "data" in c else None
+            if n < 0 or (want is not None and n > want):
+                return [dict(i=r["i"], kind="count-out-of-range", detail=[c["op"], n, want, r["out"]])]
         if c["op"] in ("write", "writeat", "writestring") and not base64.b64decode(c.get("data", "")) and a[0] == "err" and b == ("n", 0):
             # a zero-length write on a handle that is not writable: os.File makes no system call and reports (0, nil),
             # STFS refuses it; nothing is written either way
